@@ -4,6 +4,7 @@
    pools below; every request of the pools; every behaviour of the user code that runs.  Each reachable
    state with an exchange is one cell of the decision table; Emit prints it for the replay leg. *)
 EXTENDS Cors, Json
+CONSTANT OtherForAll       \* TRUE: the other middleware is combined with every configuration (thorough), FALSE: with three
 
 Var(t) == [k |-> "var", s |-> t]
 Tok(k, t) == [k |-> k, s |-> t]
@@ -38,7 +39,7 @@ MCInit == \E b \in {TRUE} : CInit(AppRoutes, AppSinks, AppStatics, b)
 XMakeEnable   == MakeEnable
 XMakeExplicit == \E c \in MCCfgs : MakeExplicit(c)
 XGuard        == AddCorsAgainRejected
-XAddOther     == (cfg \in FewCfgs) /\ (guard = 0) /\ \E o \in MCOthers : AddOther(o.kind, o.pos)
+XAddOther     == (OtherForAll \/ cfg \in FewCfgs) /\ (guard = 0) /\ \E o \in MCOthers : AddOther(o.kind, o.pos)
 XExchange     == \E rq \in MCRequests, beh \in Behaviours : Exchange(rq, beh)
 MCNext == XMakeEnable \/ XMakeExplicit \/ XGuard \/ XAddOther \/ XExchange
 
